@@ -175,7 +175,7 @@ pub fn parse_docs(attrs: &[Attribute]) -> Result<String> {
             Expr::Lit(ExprLit {
                 lit: Lit::Str(ref str),
                 ..
-            }) => Ok(str.value()),
+            }) => Ok(escape_doc(&str.value())),
             _ => syn_err!(attr.span(); "doc  with non literal expression found"),
         })
         .collect::<Result<Vec<_>>>()?;
@@ -204,6 +204,17 @@ pub fn parse_docs(attrs: &[Attribute]) -> Result<String> {
             buffer
         }
     })
+}
+
+/// Doc text is emitted inside a `/** .. */` block, directly after a `*`: it must neither contain
+/// the terminator `*/` nor begin with a `/` that would complete one.
+fn escape_doc(text: &str) -> String {
+    let text = text.replace("*/", "*\\/");
+    if text.starts_with('/') {
+        format!(" {text}")
+    } else {
+        text
+    }
 }
 
 #[cfg(feature = "serde-compat")]
